@@ -10,7 +10,7 @@ import refgen
 from common import Result, pmap, compare, VERIF, canon_py
 
 ID = 'C10'
-COQ_FILES = ['Properties/C10.v', 'Proofs/RefsProofs.v', 'Proofs/LRfull.v', 'Proofs/LRcert.v', 'Gen/Grammar.v']
+COQ_FILES = ['Properties/C10.v', 'Proofs/RefsPrefix.v', 'Proofs/RefsProofs.v', 'Proofs/LRfull.v', 'Proofs/LRcert.v', 'Gen/Grammar.v']
 TRUSTED = [
     'Gen/Grammar.v / Gen/Registry.v regenerated on every run from the live ply parser and registry; the extra certificate of '
     'Proofs/LRfull.v (states and productions of variables, cells, ranges, calls) is recomputed on those tables',
